@@ -618,6 +618,7 @@ class Engine(CoreMixin, ExprMixin, StmtMixin, CallMixin, BuiltinMixin):
         if fs.timeout_ms:
             # a contract may ask for a larger per-obligation budget (never a smaller one than the tier's)
             self.check_timeout_ms = max(self.check_timeout_ms, int(fs.timeout_ms))
+        self.cli_first = fs.d.get('solver_route') == 'cli'
         cname = case.get('name')
         self.unit_id = fs.key + ('[%s]' % cname if cname else '')
         res = UnitResult(self.unit_id, fs.key)
@@ -832,7 +833,8 @@ class Engine(CoreMixin, ExprMixin, StmtMixin, CallMixin, BuiltinMixin):
             if rs.iff and rs.when is not None:
                 w = truthy(self.old_eval(rs.when))
                 self.ob('raises_iff', exc, z3.Not(w), props=fs.props)
-        for c in fs.ensures:
+        cname = (self.cur_case or {}).get('name')
+        for c in list(fs.ensures) + list(fs.case_ensures.get(cname, [])):
             self.ob('ensures', c.label, truthy(self.spec_eval(c.node)), props=c.props, aux=c.aux or not c.props)
         if not fs.no_inv_ensures:
             for c in invs:
